@@ -1,26 +1,22 @@
-(* Props/C01Known.v — refutations: for each flag claimed `true` in Actual/NestingActual.v a concrete
-   skeleton on which the faithful model differs from the specification (closed by vm_compute).
-   The same skeletons are in corpus/C01 and are replayed on the implementation on every run. *)
+(* Props/C01Known.v - refutations: for each flag that makes the faithful model differ from the specification
+   a concrete skeleton (closed by vm_compute).  The same skeletons are in corpus/C01 and are replayed on the
+   implementation on every run.  The witnesses of the four defects repaired by fix: commits (see
+   known_findings.json) stay in corpus/C01 as regression inputs that must now satisfy the specification. *)
 From TL Require Import Lib.Base Lib.GenTypes Gen.NestingGen Model.Skel Model.Nesting Model.NestingRun Actual.NestingActual.
 
 Definition w_if : list tree := [T (KFn FDef "f" 1 0) [T KIf [T KSimple []]]].
 Theorem C01_py_start_refuted : report Py nesting_actual 1 w_if <> spec_report 1 w_if.
 Proof. vm_compute. discriminate. Qed.
 
+(* regression: the repaired defects no longer separate the faithful model from the specification *)
 Definition w_asyncfor : list tree := [T (KFn FDef "f" 1 0) [T KAsyncFor [T KIf [T KSimple []]]]].
-Theorem C01_py_table_refuted : report Py (with_flag 0 nesting_actual) 2 w_asyncfor <> spec_report 2 w_asyncfor.
-Proof. vm_compute. discriminate. Qed.
-
 Definition w_match : list tree := [T (KFn FDef "f" 1 0) [T KSwitch [T KCase [T KSimple []]]]].
-Theorem C01_py_match_refuted : report Py (with_flag 0 nesting_actual) 2 w_match <> spec_report 2 w_match.
-Proof. vm_compute. discriminate. Qed.
-
 Definition w_elif : list tree := [T (KFn FDef "f" 1 0) [T KIf [T KSimple []; T KElif [T KSimple []]]]].
-Theorem C01_ts_elseif_refuted : report Ts nesting_actual 2 w_elif <> spec_report 2 w_elif.
-Proof. vm_compute. discriminate. Qed.
-Theorem C01_rs_elseif_refuted : report Rs nesting_actual 2 w_elif <> spec_report 2 w_elif.
-Proof. vm_compute. discriminate. Qed.
-
 Definition w_async : list tree := [T (KFn FDef "f" 1 0) [T KAsyncBlock [T KSimple []]]].
-Theorem C01_rs_async_block_refuted : report Rs nesting_actual 1 w_async <> spec_report 1 w_async.
-Proof. vm_compute. discriminate. Qed.
+Theorem C01_fixed_witnesses_now_meet_the_spec :
+  report Py (with_flag 0 nesting_actual) 2 w_asyncfor = spec_report 2 w_asyncfor
+  /\ report Py (with_flag 0 nesting_actual) 2 w_match = spec_report 2 w_match
+  /\ report Ts nesting_actual 2 w_elif = spec_report 2 w_elif
+  /\ report Rs nesting_actual 2 w_elif = spec_report 2 w_elif
+  /\ report Rs nesting_actual 1 w_async = spec_report 1 w_async.
+Proof. vm_compute. repeat split; reflexivity. Qed.
